@@ -1,11 +1,24 @@
 import IndicatifModel.Proofs.Raw
+import IndicatifModel.Proofs.Rows
 /-!
-# C03 — printed log lines are never erased, duplicated or reordered (one redraw, terminal level)
+# C03 — printed log lines are never erased, duplicated or reordered
 
-`_partial`: this is the Layer-2 half — what one redraw with erase count `n` does to the rows of
-the terminal.  The Layer-1 half (that `MultiState` always passes an `n` equal to the number of rows
-of zombie and frame lines below the log, for every history) is stated in DESIGN.md and proved so
-far only on the abstract prototype of the repaired semantics.
+Two layers (DESIGN.md section 3).
+
+* **Layer 1, every history** (`Model/Rows.lean`, validated against the crate by the `ROWS` stream):
+  `MultiState`'s row accounting — `last_line_count`, `zombie_lines_count`, `Keep`/`Clear`, orphan lines,
+  reaping, `frame_stale`, the refresh limiter — never lets an operation erase a row above the last
+  `z + n` rows, for every history of add / insert* / remove / tick / inc / set_* / println / suspend / reset /
+  finish* / abandon* / drop / clear operations on any number of bars and every limiter state; and every
+  line printed is appended to what is above. (`C03_rows_above_never_touched`, `C03_log_preserved`,
+  `C03_println_logged`.)
+* **Layer 2, one redraw** (`Model/Term.lean` + `Model/DrawTarget.lean`): what `draw_to_term` with erase
+  count `n` does to the rows of the terminal (`C03_redraw_keeps_rows_above_partial`; `_partial`: glyph
+  widths ≤ 1, frame fits, top alignment).
+
+What separates the two: Layer 1 takes for granted that a draw with erase count `n` erases exactly the last
+`n` rows and appends text and frame, which Layer 2 proves per redraw under its hypotheses and the `ROWS`
+correspondence checks on the real terminal when no line wraps.
 -/
 namespace IndicatifModel
 
@@ -22,3 +35,68 @@ theorem C03_redraw_keeps_rows_above_partial (t : Term) (pre : List Row) (n : Nat
   exact ⟨pre', h1, h2, h4⟩
 
 end IndicatifModel
+
+namespace IndicatifModel.Rows
+
+/-- **C03, every history: rows above the managed region are never touched.** Start with a fresh
+`MultiProgress` (any refresh limiter). After any history of operations, the rows above the managed
+region (`safe`) are those of any earlier moment followed by more rows, and so is the log: nothing above
+the last `z + n` rows is ever erased, overwritten or reordered — also when draws are skipped by the
+limiter, bars finish and are dropped in any order, and frames are invalidated by `clear` / `remove`. -/
+theorem C03_rows_above_never_touched (lim : Option (Limiter.Cfg × Limiter.St)) (now : Nat) (pre post : List MOp)
+    (hc : CleanRun { limiter := lim, now := now } (pre ++ post)) :
+    let w1 := run { limiter := lim, now := now } pre
+    let w2 := run { limiter := lim, now := now } (pre ++ post)
+    (∃ X, safe w2 = safe w1 ++ X) ∧ (∃ Y, w2.log = w1.log ++ Y) := by
+  intro w1 w2
+  have hsplit : ∀ (ops1 ops2 : List MOp) (w : RW), CleanRun w (ops1 ++ ops2) → CleanRun w ops1 ∧ CleanRun (run w ops1) ops2 := by
+    intro ops1
+    induction ops1 with
+    | nil => intro ops2 w h; exact ⟨trivial, h⟩
+    | cons o os ih =>
+      intro ops2 w h
+      obtain ⟨h1, h2⟩ := h
+      obtain ⟨i1, i2⟩ := ih ops2 (step w o) h2
+      exact ⟨⟨h1, i1⟩, by simpa [run] using i2⟩
+  obtain ⟨hc1, hc2⟩ := hsplit pre post _ hc
+  have g1 := run_good pre _ (init_inv lim now) hc1
+  have g2 := run_good post w1 g1.1 hc2
+  have hrun : w2 = run w1 post := by simp [w1, w2, run, List.foldl_append]
+  rw [hrun]
+  exact g2.2
+
+/-- **C03, every history: every printed line is on the screen, in order, above the managed region.** -/
+theorem C03_log_preserved (lim : Option (Limiter.Cfg × Limiter.St)) (now : Nat) (ops : List MOp)
+    (hc : CleanRun { limiter := lim, now := now } ops) :
+    let w := run { limiter := lim, now := now } ops
+    w.z + w.n ≤ w.scr.length ∧ w.log.Sublist (w.scr.take (w.scr.length - (w.z + w.n))) := by
+  have g := run_good ops _ (init_inv lim now) hc
+  exact ⟨g.1.fits, g.1.log_safe⟩
+
+/-- `MultiProgress::println` always prints: whatever the limiter state, its lines (and any text queued by
+`ProgressBar::println`) are appended to the log by the call itself -/
+theorem C03_println_logged (w : RW) (t : Text) (hp : w.panicked = false) :
+    (step w (.mpPrintln t)).log = w.log ++ (textRows t ++ w.orphan) := by
+  simp only [step, hp, Bool.false_eq_true, if_false]
+  exact draw_forced_log w (textRows t)
+
+/-- … and so does `ProgressBar::println` of a member bar -/
+theorem C03_bar_println_logged (w : RW) (k : Nat) (t : Text) (hk : k < w.bars.length)
+    (ha : (w.barAt k).alive = true) (hm : (w.barAt k).member = true) :
+    (barStep w k (.println t)).log = w.log ++ (w.orphan ++ textRows t) := by
+  have hk' : ¬ k ≥ w.bars.length := by omega
+  simp only [barStep, hk', if_false, ha, hm, Bool.not_true, Bool.false_eq_true, barDraw, Bool.true_or]
+  rw [draw_forced_log]
+  simp
+
+/-- non-vacuity: a concrete history (two log lines, a bar that ticks, finishes and is dropped, a third log
+line) is clean and ends with all three lines in the log and on the screen above the managed rows -/
+example :
+    let l (c : Nat) : Text := [⟨108, 1⟩, ⟨c, 1⟩]
+    let ops : List MOp := [.mpPrintln (l 49), .mpPrintln (l 50),
+      .add 0 0 (some 10) 1 .andLeave [⟨65, 1⟩], .bar 0 .tick, .bar 0 (.finish .andLeave), .bar 0 .drop,
+      .mpPrintln (l 51)]
+    CleanRun {} ops ∧ (run {} ops).log = [l 49, l 50, l 51] ∧ (run {} ops).scr = [l 49, l 50, l 51] := by
+  refine ⟨⟨trivial, trivial, trivial, trivial, trivial, trivial, trivial, trivial⟩, ?_, ?_⟩ <;> decide +kernel
+
+end IndicatifModel.Rows
